@@ -94,6 +94,12 @@ func mustFailCorpus(verif, id string) (tried int, caught int, results []mustFail
 		}(i, sid)
 	}
 	wg.Wait()
+	os.RemoveAll(filepath.Join(verif, "work", "child", "replay-"+id))
+	if old, _ := filepath.Glob(filepath.Join(verif, "work", "child", id+"-*.json")); old != nil {
+		for _, f := range old {
+			os.Remove(f)
+		}
+	}
 	for _, r := range results {
 		if strings.Contains(r.Note, "does not apply") {
 			continue // the tree moved under the diff: not counted
@@ -181,7 +187,11 @@ func (e *Engine) conformance(keys []string, seed int64, n int) (validated int, p
 	for i := 0; i < cnt; i++ {
 		r := <-ch
 		if !r.oc.Available {
-			perFunc[r.key] = "not replayable: " + r.oc.Reason
+			reason := r.oc.Reason
+			if len(reason) > 140 {
+				reason = reason[:140] + "…"
+			}
+			perFunc[r.key] = "not replayable: " + reason
 			continue
 		}
 		if r.oc.Failing != nil {
